@@ -101,11 +101,24 @@ def check_case(case):
             nz = [k for k, v in exp.items() if v]
             nontrivial = len(nz) >= 2
             classes += [case["shape"]]
-            if not (a == b and hash(a) == hash(b)):
+            dec = case["shape"].endswith("/decimal")
+            # A decimal fraction reaches the two parsers through different
+            # float expressions (int + 0.f vs float("i.f")), which may differ
+            # in the last bit; the statement promises the same duration, not
+            # the same bit pattern, so decimals are compared within 1 us.
+            if dec:
+                same = (not a.get_is_in_weeks() and a.years == b.years and
+                        a.months == b.months and
+                        abs(M.dur_len(a) - M.dur_len(b)) <= M.US)
+            else:
+                same = a == b and hash(a) == hash(b)
+            if not same:
                 fail = "alt_eq: %r parsed to %r but %r parsed to %r" % (
                     alt, comps(a), desig, comps(b))
             elif a.get_is_in_weeks() or any(
-                    getattr(a, u) != exp.get(u, 0) for u in UNITS):
+                    abs(getattr(a, u) - exp.get(u, 0)) > (1e-6 if dec and
+                                                          u == "seconds" else 0)
+                    for u in UNITS):
                 fail = "alt_decode: %r parsed to %r, spelled %r" % (
                     alt, comps(a), exp)
     except Exception as e:      # noqa: BLE001
